@@ -272,37 +272,45 @@ func runC19(t *testing.T, p *core.Plan) *core.Result {
 			if len(acts) == 0 {
 				break
 			}
-			switch acts[sched.Weighted(w)] {
-			case "release":
-				k := 1 + sched.Intn(3)
-				if sched.Chance(1, 4) {
-					k = nS
-				}
-				for i := 0; i < k; i++ {
-					s := 1 + sched.Intn(nS)
-					if left[s] > 0 {
-						left[s]--
-						gates[s] <- struct{}{}
-						log.Ev("release %d", s)
+			burst := 1
+			if sched.Chance(1, 3) {
+				burst = 2 + sched.Intn(2)
+			}
+			for b := 0; b < burst; b++ {
+				switch acts[sched.Weighted(w)] {
+				case "release":
+					k := 1 + sched.Intn(3)
+					if sched.Chance(1, 4) {
+						k = nS
+					}
+					for i := 0; i < k; i++ {
+						s := 1 + sched.Intn(nS)
+						if left[s] > 0 {
+							left[s]--
+							gates[s] <- struct{}{}
+							log.Ev("release %d", s)
+						}
+					}
+				case "peer":
+					peerLeft--
+					pk := MkPacket(2+sched.Intn(3), sched.Pick(0, 10, 5000), 900000+peerLeft)
+					peerSent = append(peerSent, pk)
+					_, _ = link.B2A.Write(Enc(pk))
+					log.Ev("peer writes %s", pk.Type())
+				case "deliver":
+					n := link.B2A.InFlight()
+					if sched.Chance(1, 2) {
+						n = 1 + sched.Intn(n)
+					}
+					link.B2A.Deliver(n)
+					log.Ev("deliver b>a %d", n)
+				case "timer":
+					if b == 0 {
+						core.AdvanceToNextTimer(time.Hour)
+						log.Ev("timer @%v", core.SimNow())
+						res.Count("timer_advances", 1)
 					}
 				}
-			case "peer":
-				peerLeft--
-				pk := MkPacket(2+sched.Intn(3), sched.Pick(0, 10, 5000), 900000+peerLeft)
-				peerSent = append(peerSent, pk)
-				_, _ = link.B2A.Write(Enc(pk))
-				log.Ev("peer writes %s", pk.Type())
-			case "deliver":
-				n := link.B2A.InFlight()
-				if sched.Chance(1, 2) {
-					n = 1 + sched.Intn(n)
-				}
-				link.B2A.Deliver(n)
-				log.Ev("deliver b>a %d", n)
-			case "timer":
-				core.AdvanceToNextTimer(time.Hour)
-				log.Ev("timer @%v", core.SimNow())
-				res.Count("timer_advances", 1)
 			}
 		}
 		syncWait()
@@ -318,6 +326,11 @@ func runC19(t *testing.T, p *core.Plan) *core.Result {
 			doClose()
 			log.Ev("final close")
 			syncWait()
+		}
+		// Close returned: a pending Receive must have been unblocked by it (judged
+		// before the probes below, whose failing sends close the carrier themselves)
+		if isDone(cdone) && !isDone(rdone) {
+			res.Violate("C19", "C19.blocked", "receive-after-close", fmt.Sprintf("Close returned (%v) but the pending Receive is still blocked", closeErr))
 		}
 		// ---- probes after close returned
 		if isDone(cdone) {
